@@ -13,5 +13,5 @@ CONSTANTS Principals = {"A", "A2", "B"}
           FixedF8 = TRUE
           Person <- DevPerson
 CONSTRAINT DevBoundNarrow
-INVARIANTS NoUnexplainedRead NoUnexplainedEffect NoUnexplainedResult ResultsMatchCode EndedNotRunning
+INVARIANTS NoUnexplainedRead NoUnexplainedEffect NoUnexplainedResult NoUnexplainedLoss ResultsMatchCode EndedNotRunning
 CHECK_DEADLOCK FALSE
